@@ -25,7 +25,7 @@ EXHAUSTIVE_NOTE = "within each scenario every boundary of the call is an observa
 ASSUMPTIONS = ["observation granularity = Python-level file-system operations of the calling process",
                "process death loses only user-space buffers, which an observer of the disk cannot see either"]
 KINDS = ["store_new", "store_dup_unref", "store_additional", "store_bytesio", "tag_unref", "tag_shared",
-         "delete_sole", "delete_shared", "delete_with_meta", "smeta_new", "smeta_overwrite", "dmeta_one", "dmeta_all"]
+         "delete_sole", "delete_shared", "delete_with_meta", "delete_listed_first", "delete_listed_middle", "smeta_new", "smeta_overwrite", "dmeta_one", "dmeta_all"]
 NOTFOUND = {"PidRefsDoesNotExist", "OrphanPidRefsFileFound", "PidNotFoundInCidRefsFile",
             "RefsFileExistsButCidObjMissing", "ValueError", "FileNotFoundError"}
 
